@@ -13,6 +13,8 @@ CONSTANTS
   RuleTypes = {1, 3, 4}
   LigLens = {1, 2}
   Kinds = {"ttf"}
+  CmapFormats = {"4"}
+  LigFirst = -1
   TextSel = "none"
   Flags = FALSE
   Quiet = TRUE
